@@ -319,6 +319,8 @@ def random_spec(seed: int, profile: Optional[Dict[str, Any]] = None) -> Dict[str
             "dlon": rnd.choice([0.0004, 0.0025, 0.005, 0.012]),
         }
         if rnd.random() < 0.2:
+            net["stubs"] = rnd.choice([0.15, 0.4])  # split-intersection stubs: links whose two ends share one location cell
+        if rnd.random() < 0.2:
             net["missing_speed"] = rnd.choice([0.2, 0.5])  # links without a speed get network.default_speed_kmph
             net["default_speed_kmph"] = rnd.choice([10.0, 25.0, 90.0])
         if isinstance(P.get("grid"), dict):
